@@ -158,19 +158,6 @@ func crashedCase(c caseSpec, stderrTail string) *caseResult {
 		}
 	}
 	sig := map[string]string{"oracle": "crash", "api": "daemon", "what": "process-crash", "trigger": trigger}
-	// Run waits on the live per-order WaitGroups: a worker of such an order started after Run's copy can make
-	// Add/Done race that Wait ("WaitGroup misuse" / "WaitGroup is reused") - inside a daemon goroutine.
-	ranRun, lateAdd := false, false
-	for _, op := range c.Script {
-		if op == "go run" {
-			ranRun = true
-		} else if ranRun && (strings.HasPrefix(op, "bw ") || strings.HasPrefix(op, "go bw ") || strings.HasPrefix(op, "park ")) {
-			lateAdd = true
-		}
-	}
-	if strings.Contains(first, "WaitGroup") && lateAdd {
-		sig = map[string]string{"oracle": "crash", "api": "Run", "what": "waitgroup-panic", "trigger": "worker-added-after-run-snapshot"}
-	}
 	res.Fails = append(res.Fails, failRec{"C20-crash", what + ": " + first + " | script: " + strings.Join(c.Script, "; "), sig})
 	res.Lines = append(res.Lines, [2]string{"check", checkAnswer(res)})
 
@@ -251,24 +238,6 @@ func runAll(r *hx.Run, cases []caseSpec) {
 	os.Remove(filepath.Join(r.OutDir, "chunk.res"))
 }
 
-// checkAnswer is the implementation column of the `check` line: the constant "accept" - so that a log the
-// Lean predicates reject shows up as a mismatch and its script lands in the replay file - except where the
-// only failing clause is the recorded symptom of Run waiting on the live WaitGroups (known finding), which the
-// Lean side answers identically.
-func checkAnswer(res *caseResult) string {
-	crashRun, other := false, false
-	for _, f := range res.Fails {
-		switch {
-		case f.Sig["oracle"] == "runwait":
-		case f.Sig["oracle"] == "crash" && f.Sig["api"] == "Run" && f.Sig["what"] == "waitgroup-panic":
-			crashRun = true
-		case strings.HasPrefix(f.Oracle, "C20-"):
-			other = true
-		}
-	}
-	if crashRun && !other {
-		return "reject crash"
-	}
-
-	return "accept"
-}
+// checkAnswer is the implementation column of the `check` line: the constant "accept", so that a log the
+// Lean predicates reject shows up as a mismatch and its script lands in the replay file.
+func checkAnswer(*caseResult) string { return "accept" }
